@@ -127,8 +127,12 @@ func (c *caseRun) randomOp(nRemotes int) {
 		c.doDeliver(r.Intn(nRemotes), r.Chance(60))
 	case x < 86:
 		c.doDel(c.pick(), r.Chance(30))
-	case x < 93:
+	case x < 89:
 		c.doRun()
+	case x < 91:
+		c.doLegacy(c.r.Intn(c.n))
+	case x < 93:
+		c.doRunFault()
 	case x < 96:
 		c.doCrash()
 	default:
@@ -192,6 +196,34 @@ func (c *caseRun) scenario(id int) {
 		c.doPut(1)
 		c.doFetch(1)
 		c.doHead(0)
+	case 10: // legacy root-only entry without common snapshot: advertised by FillDiff, must leave the index when deleted
+		k := 3
+		if !c.legacyOK(k) {
+			k = 0
+		}
+		c.doLegacy(k)
+		c.doRestart()
+		if c.r.Chance(50) {
+			c.doRec(0, []int{k}, false)
+			c.doDeliver(0, true)
+		} else {
+			c.doDel(k, false)
+		}
+		c.doPut(k)
+		c.doRun()
+		c.doRestart()
+	case 11: // storage fault in the worker's data removal with the tree open in the cache, then the retry
+		c.doPut(0)
+		c.doEdit(0)
+		c.doPut(1)
+		c.doRec(0, []int{0}, false)
+		c.doDeliver(0, true)
+		c.doRunFault()
+		c.doRun()
+		c.doFetch(0)
+		c.doRestart()
+		c.doFetch(0)
+		c.doPut(0)
 	case 7: // deletion lands between the tombstone checks and the storage-creating transaction of a put
 		c.withRace(0, func() { c.doPut(0) })
 		c.doRun()
@@ -227,9 +259,9 @@ func (c *caseRun) scenario(id int) {
 }
 
 func Run(r *corr.Run) {
-	r.SetRule("a case = a fresh space (real any-store) with 3..6 objects (some bound to a parent), 1..2 remote settings authors, and a sequence of 20..60 steps from {put, fetch, fstart/ffin, edit, head, rec (plain/snapshot), xfer, deliver (closed prefix / arbitrary subset, shuffled), del, run, crash (worker pass cut after its first id, then restart), restart}; 10 scripted guard scenarios (fetch race, late child, restart between queued and deleted, snapshot root, tombstone before creation, deletion during a parked fetch, crash inside a worker pass, deletion landing right before the storage-creating transaction of a put / a fetch / a parked fetch's response) each continued randomly; non-trivial = a tombstone was reached; distinct = distinct model-protocol traces")
+	r.SetRule("a case = a fresh space (real any-store) with 3..6 objects (some bound to a parent), 1..2 remote settings authors, and a sequence of 20..60 steps from {put, fetch, fstart/ffin, edit, head, rec (plain/snapshot), xfer, deliver (closed prefix / arbitrary subset, shuffled), del, run, runf (worker pass whose write transactions all fail), legacy (old-format heads entry appears), crash (worker pass cut after its first id, then restart), restart}; 12 scripted guard scenarios (legacy root-only heads entry deleted, storage-faulted worker pass + retry, fetch race, late child, restart between queued and deleted, snapshot root, tombstone before creation, deletion during a parked fetch, crash inside a worker pass, deletion landing right before the storage-creating transaction of a put / a fetch / a parked fetch's response) each continued randomly; non-trivial = a tombstone was reached; distinct = distinct model-protocol traces")
 	// scripted scenarios first (all parents variants relevant to them)
-	for _, id := range []int{7, 8, 9, 0, 1, 2, 3, 4, 5, 6} {
+	for _, id := range []int{10, 11, 7, 8, 9, 0, 1, 2, 3, 4, 5, 6} {
 		if !r.TimeLeft() {
 			break
 		}
@@ -237,6 +269,9 @@ func Run(r *corr.Run) {
 			parents := []int{-1, 0, 0, -1}
 			if variant == 1 {
 				parents = []int{-1, -1, 0, 1}
+				if id == 10 {
+					parents = []int{-1, -1, 1, -1}
+				}
 			}
 			c := newCase(r, parents, 1)
 			c.scenario(id)
